@@ -27,6 +27,18 @@ from .vloop import TICKS_PER_S
 
 UNIT = TICKS_PER_S >> 10
 ALT_PORT = 6001
+# cache-key options besides the Uri-* ones (Content-Format, Accept, Request-Tag), as a second dimension of the key:
+# index of the (option, value) a request carries (0: none of them)
+CK2_TABLE = {(17, b"\x3c"): 1, (12, b"\x2a"): 2, (292, b"\x01"): 3, (292, b"\x02"): 4}
+
+
+def ck2_index(pairs):
+    for num, val in pairs:
+        if (int(num), bytes(val)) in CK2_TABLE:
+            return CK2_TABLE[(int(num), bytes(val))]
+    return 0
+
+
 DIAG_LEN = 8   # length of the diagnostic text scripted handlers put into renderable errors
 
 
@@ -170,6 +182,13 @@ def build_msg(step, reqs, free_mid):
         options.append((wire.NO_RESPONSE, wire.uint(step["nr"])))
     if "ckq" in step:
         options.append((wire.URI_QUERY, b"k=%d" % step["ckq"]))
+    if step.get("accept") is not None:
+        # a second cache-key dimension: [option number, value] (or a bare Accept value)
+        a = step["accept"]
+        if isinstance(a, list):
+            options.append((a[0], bytes.fromhex(a[1])))
+        else:
+            options.append((wire.ACCEPT, wire.uint(a)))
     if step.get("b1") is not None:
         options.append((wire.BLOCK1, wire.block(*step["b1"])))
     if step.get("b2") is not None:
@@ -254,6 +273,7 @@ def run(sched):
         for qv in qs:
             if qv.startswith(b"k=") and qv[2:].isdigit():
                 ckq = int(qv[2:])
+        ckq += 2 * ck2_index(m["options"])
         return dict(
             ckq=ckq, cid=cid, off=off, cok=cok, **blk,
             ty=wire.TYPE_NAMES[m["type"]],
@@ -474,6 +494,7 @@ def run(sched):
             for qv in request.opt.uri_query:
                 if qv.startswith("k=") and qv[2:].isdigit():
                     ckq = int(qv[2:])
+            ckq += 2 * ck2_index((o.number, o.encode()) for o in request.opt.option_list())
             ck = n * 10 + ckq
             salt = key_salt(r, int(request.code), ck)
             body = bytes(request.payload)
